@@ -11,7 +11,7 @@ python3 - <<'PY'
 import sys
 sys.path.insert(0, '.')
 from lib.common import *
-for pkg in HARNESS:
+for pkg in harness_pkgs():
     try:
         build_harness(pkg)
     except Exception as e:
